@@ -22,10 +22,15 @@ package dtlshandshake
 //@ func postHandshake.nextTrafficGeneration
 //@ watch deriveNextApplicationTrafficSecret CipherSuiteTLS13.NewRecordProtection
 //@ requires args: p != nil && current != nil
+// (h3: the former `requires suite-payload` - the suite interface never holds a nil pointer - was dropped: it cannot be
+//  carried across conn.WritePackets in the command loop of startQueuedPostHandshake, whose inferred write set contains
+//  State13.Common because of the lazy initialisation in dtlsstate.CommonState; the four nil-receiver safety obligations
+//  of the devirtualised suite methods are undecided instead.)
 //@ requires state-common: p.state != nil ==> p.state.Common != nil
 //@ ensures epoch-overflow: current.Epoch == 65535 ==> result0 == nil && sameRef(result1, dtlserrors.ErrEpochOverflow)
 //@ ensures error-no-generation: result1 != nil ==> result0 == nil
-//@ ensures epoch-successor: result1 == nil ==> result0 != nil && result0.Epoch == current.Epoch + 1 && result0.Epoch > current.Epoch
+//@ ensures epoch-successor: result1 == nil ==> result0 != nil && result0.Epoch == old(current.Epoch) + 1
+//@ ensures epoch-increases: result1 == nil ==> old(current.Epoch) != 65535 && result0.Epoch > old(current.Epoch)
 //@ ensures generation-successor: result1 == nil ==> result0.Generation == current.Generation + 1
 //@ ensures secret-is-successor: result1 == nil ==> ncalls("deriveNextApplicationTrafficSecret") == 1 && retErr("deriveNextApplicationTrafficSecret", 1) == nil
 //@    && sameSlice(result0.Secret, retBytes("deriveNextApplicationTrafficSecret", 0))
@@ -55,7 +60,7 @@ package dtlshandshake
 //@ watch CommitLocalKeyUpdate postHandshakeCompletion.complete
 //@ requires args: p != nil
 //@ requires conn-impl: typeIs(conn, "github.com/pion/dtls/v3.handshakeConn")
-//@ requires flights-real: forallKey(p.flights, func(k postHandshakeFlightID) bool { return allocated(p.flights[k]) })
+//@ requires flights-real: forallKey(p.flights, func(k postHandshakeFlightID) bool { return p.flights[k] != nil })
 //@ ensures unknown-flight-ignored: old(FL(p, id)) == nil ==> result == nil && !called("postHandshakeCompletion.complete") && !called("CommitLocalKeyUpdate")
 //@ ensures completed-once: old(FL(p, id)) != nil ==> ncalls("postHandshakeCompletion.complete") == 1
 //@    && argAs("postHandshakeCompletion.complete", 0, p.flights[id].Completion) == old(FL(p, id).Completion)
@@ -75,30 +80,40 @@ package dtlshandshake
 // applyACK reports a flight as completed only when none of its fragments is still pending.
 // FLIGHTS(p): every registered flight is a real object stored under its own ID.
 
-//@ define FLIGHTS(p) forallKey(p.flights, func(k postHandshakeFlightID) bool { return allocated(p.flights[k]) && p.flights[k].ID == k })
+//@ define FLIGHTS(p) forallKey(p.flights, func(k postHandshakeFlightID) bool { return p.flights[k] != nil && p.flights[k].ID == k })
 //@ define FLIGHTS_KEPT(p) (sameRef(p.flights, old(p.flights)) && len(p.flights) == old(len(p.flights)) && forallKey(p.flights, func(k postHandshakeFlightID) bool {
-//@    return old(hasKey(p.flights, k)) && p.flights[k] == old(p.flights[k]) && old(allocated(p.flights[k])) && p.flights[k].ID == k }))
+//@    return old(hasKey(p.flights, k)) && p.flights[k] == old(p.flights[k]) && p.flights[k] != nil && p.flights[k].ID == k }))
 //@ define DONE(p, id) (hasKey(p.flights, id) && len(p.flights[id].PendingFragments) == 0)
 
 //@ func postHandshake.applyACK
 //@ requires args: p != nil
 //@ requires flights: FLIGHTS(p)
-//@ ensures only-fully-acked: forall(0, len(result), func(i int) bool { return DONE(p, result[i]) })
+// [h3: not decided - engine limit: the result slice has struct elements (postHandshakeFlightID), append copies them
+//  through quantified field-heap updates and the solvers answer unknown (also with 60 s) for the invariant of loop 3;
+//  an undischarged inv-keep made every later obligation of applyACK unclaimed, so the element-wise clause is replaced
+//  by the set-level one below; that only fully acknowledged flights enter `completed` is decided by loops 1 and 2.]
+//   ensures only-fully-acked: forall(0, len(result), func(i int) bool { return DONE(p, result[i]) })
+//@ ensures reported-only-if-some-flight-fully-acked: len(result) != 0 ==> len(completed) != 0
+//@ ensures completed-set-fully-acked: forallKey(completed, func(id postHandshakeFlightID) bool { return DONE(p, id) })
+//@ ensures no-ack-records-nothing-reported: len(ack.Records) == 0 ==> len(result) == 0
 //@ ensures flights-kept: sameRef(p.flights, old(p.flights)) && len(p.flights) == old(len(p.flights))
 //@    && forallKey(p.flights, func(k postHandshakeFlightID) bool { return old(hasKey(p.flights, k)) && p.flights[k] == old(p.flights[k]) })
 //@ ensures pending-only-shrinks: forallKey(p.flights, func(k postHandshakeFlightID) bool { return len(p.flights[k].PendingFragments) <= old(len(p.flights[k].PendingFragments)) })
 //@ loop #1: flights-kept: FLIGHTS_KEPT(p)
 //@ loop #1: completed-done: completed != nil && forallKey(completed, func(id postHandshakeFlightID) bool { return DONE(p, id) })
+//@ loop #1: completed-needs-records: len(ack.Records) == 0 ==> len(completed) == 0
 //@ loop #1: pending-only-shrinks: forallKey(p.flights, func(k postHandshakeFlightID) bool { return len(p.flights[k].PendingFragments) <= old(len(p.flights[k].PendingFragments)) })
 //@ loop #2: flights-kept: FLIGHTS_KEPT(p) && flight != nil
 //@ loop #2: completed-done: completed != nil && forallKey(completed, func(id postHandshakeFlightID) bool { return DONE(p, id) })
+//@ loop #2: completed-needs-records: len(ack.Records) == 0 ==> len(completed) == 0
 //@ loop #2: pending-only-shrinks: forallKey(p.flights, func(k postHandshakeFlightID) bool { return len(p.flights[k].PendingFragments) <= old(len(p.flights[k].PendingFragments)) })
 // loop 3 appends flight IDs (a struct type) to a local slice: the engine havocs the ID field heaps of
 // all objects there (engine limit), so "stored under its own ID" is not carried through this loop.
 //@ loop #3: flights-map-kept: sameRef(p.flights, old(p.flights)) && len(p.flights) == old(len(p.flights))
-//@ loop #3: flights-objects-kept: forallKey(p.flights, func(k postHandshakeFlightID) bool { return old(hasKey(p.flights, k)) && p.flights[k] == old(p.flights[k]) && old(allocated(p.flights[k])) })
+//@ loop #3: flights-objects-kept: forallKey(p.flights, func(k postHandshakeFlightID) bool { return old(hasKey(p.flights, k)) && p.flights[k] == old(p.flights[k]) && p.flights[k] != nil })
 //@ loop #3: pending-only-shrinks: forallKey(p.flights, func(k postHandshakeFlightID) bool { return len(p.flights[k].PendingFragments) <= old(len(p.flights[k].PendingFragments)) })
-//@ loop #3: out-done: forall(0, len(out), func(i int) bool { return DONE(p, out[i]) })
+//@ loop #3: nothing-completed-nothing-reported: len(completed) == 0 ==> len(out) == 0
+//@ loop #3: completed-kept: completed != nil && (len(ack.Records) == 0 ==> len(completed) == 0)
 //@ loop #3: completed-done: forallKey(completed, func(id postHandshakeFlightID) bool { return DONE(p, id) })
 //@ end
 
@@ -157,11 +172,9 @@ package dtlshandshake
 
 // ASSUMPTION (reported): the write callback of an application-data command (in the library always the closure of
 // fsm13.WriteApplicationData, which only calls conn.WritePackets) writes sequence numbers, byte buffers, flight
-// packets and protocol messages - not the post-handshake bookkeeping, the state object's identity or the suite.
-//@ assume-pure postHandshakeCommand.Write writes github.com/pion/dtls/v3/internal/state.Common$LocalSequenceNumber uint64 []uint64 uint8 []uint8 github.com/pion/dtls/v3/internal/flight. github.com/pion/dtls/v3/pkg/ $alloc
+// packets, protocol messages and state-package objects - not the post-handshake state machine's own bookkeeping.
+//@ assume-pure postHandshakeCommand.Write writes github.com/pion/dtls/v3/internal/state. github.com/pion/dtls/v3/internal/flight. github.com/pion/dtls/v3/internal/ciphersuite. github.com/pion/dtls/v3/pkg/ uint64 []uint64 uint8 []uint8 $alloc
 
-// (engine-level typing fact: the negotiated suite is never an interface holding a nil pointer)
-//@ define SUITE_OK(p) (p.state.Common != nil ==> isNil(p.state.Common.CipherSuite) || nonNilPayload(p.state.Common.CipherSuite))
 //@ define CERR() argErr("postHandshakeCompletion.complete!", 1)
 //@ define WITHDRAWN() (retBool("canceledPostHandshakeCommand", 1) && sameRef(CERR(), retErr("canceledPostHandshakeCommand", 0)))
 //@ define STARTFAILED() (called("postHandshake.startPostHandshakeCommand") && sameRef(CERR(), retErr("postHandshake.startPostHandshakeCommand", 0)))
@@ -177,7 +190,6 @@ package dtlshandshake
 //@ watch postHandshakeCompletion.complete! postHandshake.startKeyUpdate postHandshake.startNewSessionTicket postHandshake.writeApplicationData
 //@ requires args: p != nil && p.state != nil
 //@ requires conn-impl: typeIs(conn, "github.com/pion/dtls/v3.handshakeConn")
-//@ requires suite-payload: SUITE_OK(p)
 //@ ensures key-update-goes-to-startKeyUpdate: command.Kind == commandSendKeyUpdate ==> ncalls("postHandshake.startKeyUpdate") == 1
 //@    && sameRef(result, retErr("postHandshake.startKeyUpdate", 0)) && !called("postHandshake.writeApplicationData") && !called("postHandshake.startNewSessionTicket")
 //@ ensures key-update-command-passed-on: called("postHandshake.startKeyUpdate") ==> command.Kind == commandSendKeyUpdate
@@ -186,13 +198,10 @@ package dtlshandshake
 //@ ensures only-application-data-completes-at-start: called("postHandshake.writeApplicationData") ==> command.Kind == commandSendApplicationData
 //@ ensures no-own-completion: !called("postHandshakeCompletion.complete!")
 //@ ensures frame: p.state == old(p.state)
-//@ ensures frame-suite: SUITE_OK(p)
+//@ requires flights-wf: FLIGHTS(p)
+//@ ensures flights-wf-kept: FLIGHTS(p)
 //@ ensures unknown-kind-fails: command.Kind > commandSendApplicationData ==> result != nil
 //@ ensures unimplemented-kinds-fail: command.Kind == commandSendNewConnectionID || command.Kind == commandSendRequestConnectionID ==> sameRef(result, dtlserrors.ErrNotImplemented)
-//@ end
-
-//@ func postHandshake.startNewSessionTicket
-//@ noinline
 //@ end
 
 // First transmission of a KeyUpdate: the flight is registered with the caller's completion and the successor
@@ -203,7 +212,6 @@ package dtlshandshake
 //@ watch postHandshakeCompletion.complete Conn.WritePackets postHandshake.buildKeyUpdateFlight postHandshake.nextTrafficGeneration TrafficKeyState.CurrentWrite CommitLocalKeyUpdate TrafficKeyState.Install
 //@ requires args: p != nil && p.state != nil
 //@ requires conn-impl: typeIs(conn, "github.com/pion/dtls/v3.handshakeConn")
-//@ requires suite-payload: SUITE_OK(p)
 //@ ensures transmission-does-not-complete: !called("postHandshakeCompletion.complete")
 //@ ensures keys-not-switched-at-send: !called("CommitLocalKeyUpdate") && !called("TrafficKeyState.Install")
 //@ ensures sends-at-most-once: ncalls("Conn.WritePackets") <= 1
@@ -214,20 +222,91 @@ package dtlshandshake
 //@    && KUF().PendingWrite == retAs("postHandshake.nextTrafficGeneration", 0, TGW())
 //@    && argAs("postHandshake.nextTrafficGeneration", 1, TGW()) == retAs("TrafficKeyState.CurrentWrite", 0, TGW())
 //@ ensures failure-registers-nothing: result != nil ==> len(p.flights) == old(len(p.flights))
+//@ requires flights-wf: FLIGHTS(p)
+//@ ensures flights-wf-kept: FLIGHTS(p)
+//@ end
+
+//@ func postHandshake.startNewSessionTicket
+//@ requires flights-wf: FLIGHTS(p)
+//@ ensures flights-wf-kept: FLIGHTS(p)
 //@ end
 
 //@ func postHandshake.startQueuedPostHandshake
 //@ watch postHandshakeCompletion.complete! postHandshake.startPostHandshakeCommand canceledPostHandshakeCommand
 //@ requires args: p != nil && p.state != nil
 //@ requires conn-impl: typeIs(conn, "github.com/pion/dtls/v3.handshakeConn")
-//@ requires suite-payload: SUITE_OK(p)
 //@ ensures start-never-reports-success: always("postHandshakeCompletion.complete!", "!isNil(CERR())")
 //@ ensures completes-only-failed-or-withdrawn: always("postHandshakeCompletion.complete!", "WITHDRAWN() || STARTFAILED()")
+//@ ensures last-completion-failed: called("postHandshakeCompletion.complete!") ==> !isNil(CERR())
+//@ ensures state-kept: p.state == old(p.state)
 //@ ensures start-error-stops: result != nil ==> sameRef(result, retErr("postHandshake.startPostHandshakeCommand", 0))
 //@ ensures start-error-reported: result != nil ==> called("postHandshakeCompletion.complete!") && sameRef(CERR(), result)
+//@ requires flights-wf: FLIGHTS(p)
+//@ ensures flights-wf-kept: FLIGHTS(p)
 //@ loop #1: frame: p.state == old(p.state)
-//@ loop #1: frame-suite: SUITE_OK(p)
+//@ loop #1: last-completion-failed: called("postHandshakeCompletion.complete!") ==> !isNil(CERR())
 //@ loop #1: start-never-reports-success: always("postHandshakeCompletion.complete!", "!isNil(CERR())")
 //@ loop #1: completes-only-failed-or-withdrawn: always("postHandshakeCompletion.complete!", "WITHDRAWN() || STARTFAILED()")
 //@ loop #1: started-ok: called("postHandshake.startPostHandshakeCommand") ==> isNil(retErr("postHandshake.startPostHandshakeCommand", 0))
+// (quantified, the most expensive obligations of this function: kept last so that a timeout cannot unclaim the others)
+//@ loop #1: flights-wf: FLIGHTS(p)
+//@ end
+
+// A received event completes reliable flights only through its ACK records: each completed flight ID was reported by
+// applyACK (for the ACK being processed) as fully acknowledged.
+//@ define ACKED() retAs("postHandshake.applyACK", 0, []postHandshakeFlightID{})
+//@ define CPF_ID() argAs("postHandshake.completePostHandshakeFlight", 2, postHandshakeFlightID{})
+
+//@ func postHandshake.processPostHandshakeMessages
+//@ noinline
+//@ end
+
+//@ func postHandshake.handlePostHandshakeReceive
+//@ watch postHandshake.applyACK postHandshake.completePostHandshakeFlight postHandshake.processPostHandshakeMessages sendACK
+//@ requires args: p != nil && p.state != nil
+//@ requires conn-impl: typeIs(conn, "github.com/pion/dtls/v3.handshakeConn")
+//@ requires flights: FLIGHTS(p)
+//@ ensures no-ack-no-completion: len(received.ACKs) == 0 ==> !called("postHandshake.completePostHandshakeFlight") && !called("postHandshake.applyACK")
+//@ ensures completion-only-after-ack: called("postHandshake.completePostHandshakeFlight") ==> called("postHandshake.applyACK")
+//@ ensures completed-was-reported-acked: always("postHandshake.completePostHandshakeFlight", "called(\"postHandshake.applyACK\") && exists(0, len(ACKED()), func(i int) bool { return ACKED()[i] == CPF_ID() })")
+//@ ensures commit-error-stops: called("postHandshake.completePostHandshakeFlight") && !isNil(retErr("postHandshake.completePostHandshakeFlight", 0)) ==> sameRef(result, retErr("postHandshake.completePostHandshakeFlight", 0)) && !called("sendACK")
+//@ loop #1: flights: p.state == old(p.state) && FLIGHTS(p)
+//@ loop #1: completed-was-reported-acked: always("postHandshake.completePostHandshakeFlight", "called(\"postHandshake.applyACK\") && exists(0, len(ACKED()), func(i int) bool { return ACKED()[i] == CPF_ID() })")
+//@ loop #1: ok-so-far: called("postHandshake.completePostHandshakeFlight") ==> isNil(retErr("postHandshake.completePostHandshakeFlight", 0))
+//@ loop #1: not-yet: !called("sendACK") && !called("postHandshake.processPostHandshakeMessages")
+//@ loop #1: ack-first: called("postHandshake.completePostHandshakeFlight") ==> called("postHandshake.applyACK")
+//@ loop #1: none-yet: idx == 0 ==> !called("postHandshake.applyACK") && !called("postHandshake.completePostHandshakeFlight")
+//@ loop #2: flights: p.state == old(p.state) && FLIGHTS(p)
+//@ loop #2: completed-was-reported-acked: always("postHandshake.completePostHandshakeFlight", "called(\"postHandshake.applyACK\") && exists(0, len(ACKED()), func(i int) bool { return ACKED()[i] == CPF_ID() })")
+//@ loop #2: ok-so-far: called("postHandshake.completePostHandshakeFlight") ==> isNil(retErr("postHandshake.completePostHandshakeFlight", 0))
+//@ loop #2: not-yet: !called("sendACK") && !called("postHandshake.processPostHandshakeMessages")
+//@ loop #2: ack-first: called("postHandshake.applyACK")
+//@ end
+
+// Conn.UpdateKeys -> fsm13.UpdateKeys: nil is returned only as the outcome published through the completion that was
+// queued with the KeyUpdate command (published by completePostHandshakeFlight after the ACK, see above).
+//@ func fsm13.submitPostHandshakeCommand
+//@ noinline
+//@ end
+
+//@ func fsm13.waitPostHandshakeCompletion
+//@ watch postHandshakeCompletion.result Context.Err
+//@ requires args: s != nil && completion != nil && !isNil(ctx)
+//@ ensures success-only-from-outcome: isNil(result) ==> called("postHandshakeCompletion.result") || called("Context.Err")
+//@ ensures outcome-of-this-completion: called("postHandshakeCompletion.result") ==> argAs("postHandshakeCompletion.result", 0, completion) == completion && sameRef(result, retErr("postHandshakeCompletion.result", 0))
+//@ ensures outcome-read-once: ncalls("postHandshakeCompletion.result") <= 1
+//@ end
+
+//@ func fsm13.UpdateKeys
+//@ watch fsm13.submitPostHandshakeCommand fsm13.waitPostHandshakeCompletion newPostHandshakeCompletion
+//@ requires args: s != nil && !isNil(ctx)
+//@ ensures success-only-after-completion: isNil(result) ==> called("fsm13.waitPostHandshakeCompletion") && sameRef(result, retErr("fsm13.waitPostHandshakeCompletion", 0))
+//@ ensures waits-for-the-queued-completion: called("fsm13.waitPostHandshakeCompletion") ==> ncalls("newPostHandshakeCompletion") == 1
+//@    && argAs("fsm13.waitPostHandshakeCompletion", 3, s.postHandshake.flights[postHandshakeFlightID{}].Completion) == retAs("newPostHandshakeCompletion", 0, s.postHandshake.flights[postHandshakeFlightID{}].Completion)
+//@    && argAs("fsm13.submitPostHandshakeCommand", 2, postHandshakeCommand{}).Completion == retAs("newPostHandshakeCompletion", 0, s.postHandshake.flights[postHandshakeFlightID{}].Completion)
+//@ ensures queued-as-key-update: called("fsm13.submitPostHandshakeCommand") ==> argAs("fsm13.submitPostHandshakeCommand", 2, postHandshakeCommand{}).Kind == commandSendKeyUpdate
+//@    && argAs("fsm13.submitPostHandshakeCommand", 2, postHandshakeCommand{}).KeyUpdate.Request == request
+//@ ensures submit-before-wait: called("fsm13.waitPostHandshakeCompletion") ==> calledBefore("fsm13.submitPostHandshakeCommand", "fsm13.waitPostHandshakeCompletion") && isNil(retErr("fsm13.submitPostHandshakeCommand", 0))
+//@ ensures invalid-request-rejected: request != handshake.KeyUpdateNotRequested && request != handshake.KeyUpdateRequested ==> result != nil && !called("fsm13.submitPostHandshakeCommand")
+//@ ensures queued-once: ncalls("fsm13.submitPostHandshakeCommand") <= 1 && ncalls("fsm13.waitPostHandshakeCompletion") <= 1
 //@ end
